@@ -33,9 +33,9 @@ pub fn print_impl_wire_size<W: std::fmt::Write, T: FromTemplate>(
             AstType::Union(v) => {
                 print_impl(&mut w, template, v.name(), ast, |w| {
                     writeln!(w, "4 + match self {{")?;
-                    // Iterate over all the variants of v, including the
-                    // default.
-                    for case in v.cases.iter().chain(v.default.iter()) {
+                    // Iterate over all the variants of v (the default is
+                    // handled below).
+                    for case in v.cases.iter() {
                         // A single case statement may have many case values tied to it
                         // if fallthrough values are used:
                         //
@@ -64,8 +64,17 @@ pub fn print_impl_wire_size<W: std::fmt::Write, T: FromTemplate>(
                         writeln!(w, "Self::{} => 0,", NonDigitName(SafeName(c.as_str())))?;
                     }
 
-                    if v.default.is_some() {
-                        writeln!(w, "Self::default => 0,")?;
+                    // A default arm carrying data is the single variant
+                    // "default", whatever labels fall through to it.
+                    if let Some(ref d) = v.default {
+                        write!(w, r#"Self::default(inner) => inner.wire_size()"#)?;
+
+                        // In-line opaques require padding
+                        if d.contains_opaque() {
+                            writeln!(w, r#" + pad_length(inner.wire_size()),"#)?;
+                        } else {
+                            writeln!(w, ",")?;
+                        }
                     }
 
                     writeln!(w, "}}")?;
